@@ -4,6 +4,7 @@ package core
 
 import (
 	"bufio"
+	"errors"
 	"os"
 	"path/filepath"
 	"strconv"
@@ -31,7 +32,7 @@ import (
 // incarnation are placed relative to those maxima (-3…+3, ±buffer) or absolute.
 
 type c14Item struct {
-	Kind int    `json:"k"` // 0 event gossip 1 query gossip 2 event push/pull 3 event join-flagged push/pull 4 local event 5 local query
+	Kind int    `json:"k"` // 0 event gossip 1 query gossip 2 event push/pull 3 event join-flagged push/pull 4 local event 5 local query 6 join-flagged push/pull that arrives while a Join(ignoreOld) is in flight (announces event time lt, carries an event at lt-1)
 	Mode int    `json:"m"` // 0 absolute Abs, 1 recorded maximum of its kind + Rel
 	Abs  uint64 `json:"a,omitempty"`
 	Rel  int    `json:"r,omitempty"`
@@ -52,7 +53,7 @@ func genC14(t *rapid.T) c14Case {
 		var items []c14Item
 		ni := rapid.IntRange(2, 12).Draw(t, "items")
 		for i := 0; i < ni; i++ {
-			it := c14Item{Kind: rapid.SampledFrom([]int{0, 0, 0, 1, 1, 1, 2, 3, 4, 5}).Draw(t, "kind"),
+			it := c14Item{Kind: rapid.SampledFrom([]int{0, 0, 0, 1, 1, 1, 2, 3, 4, 5, 6}).Draw(t, "kind"),
 				Name: rapid.IntRange(0, 2).Draw(t, "name"), ID: uint32(rapid.IntRange(1, 3).Draw(t, "id"))}
 			if p == 0 || rapid.IntRange(0, 4).Draw(t, "abs") == 0 {
 				it.Mode = 0
@@ -124,6 +125,14 @@ func bodyC14(c c14Case, x *vkit.Ctx) {
 
 	for pi, items := range c.Phases {
 		nw := simnet.New(1)
+		parked := make(chan struct{}, 16)
+		release := make(chan struct{})
+		nw.HoldDial = func(d simnet.Dial) error {
+			parked <- struct{}{}
+			<-release
+			return errors.New("dial failed by harness")
+		}
+		defer close(release)
 		n, err := node.New(nw, node.Opts{Name: "n0", Quiet: true, Mutate: func(cf *serf.Config) {
 			cf.SnapshotPath = snap
 			cf.EventBuffer, cf.QueryBuffer = c.N, c.N
@@ -197,6 +206,39 @@ func bodyC14(c c14Case, x *vkit.Ctx) {
 			name := c05Names[it.Name%len(c05Names)]
 			var k c14Key
 			var clock, cutoff uint64
+			if it.Kind == 6 {
+				// A Join(ignoreOld) is parked on a dial the harness holds; meanwhile a
+				// join-flagged push/pull from a peer that is BEHIND (or at) the recorded
+				// maximum arrives. Whatever it does to the cut-off, the old items that
+				// follow must still be refused (judged by the existing rule); the event
+				// it carries sits below the announced time and is never owed.
+				done := make(chan struct{})
+				go func() {
+					defer close(done)
+					_, _ = n.Serf.Join([]string{"127.0.9.9:7946"}, true)
+				}()
+				select {
+				case <-parked:
+				case <-time.After(waitCap):
+					x.Inconclusive("join did not reach the dial")
+					release <- struct{}{}
+					<-done
+					return
+				}
+				pp := &serf.VerifMessagePushPull{EventLTime: serf.LamportTime(lt)}
+				if lt > 0 {
+					pp.Events = []*serf.VerifUserEvents{{LTime: serf.LamportTime(lt - 1), Events: []serf.VerifUserEvent{{Name: name}}}}
+				}
+				n.Delegate.MergeRemoteState(encPushPull(pp), true)
+				release <- struct{}{}
+				<-done
+				x.Label("join-ignore-old-with-lagging-peer")
+				poll(n, absorb)
+				if bad {
+					return
+				}
+				continue
+			}
 			switch it.Kind {
 			case 0, 2, 3:
 				k = c14Key{false, lt, name, 0}
